@@ -204,7 +204,8 @@ def match_known(cid: str, key: str, entry: dict, known: t.List[dict]) -> t.Optio
 
 
 def write_evidence(cid: str, level: str, tier: str, seed: int, merged: Acc, mod, wall: float, n_viol: int, extra: dict) -> str:
-    os.makedirs(os.path.join(VERIF, "evidence"), exist_ok=True)
+    evdir = os.environ.get("VERIF_EVIDENCE_DIR") or os.path.join(VERIF, "evidence")
+    os.makedirs(evdir, exist_ok=True)
     nontrivial = len(merged.nontrivial) + merged.nontrivial_counted
     cov: t.Dict[str, t.Any] = {
         "evaluations": merged.evaluations,
@@ -242,7 +243,7 @@ def write_evidence(cid: str, level: str, tier: str, seed: int, merged: Acc, mod,
     assert cov["samples"], "no samples"
     if level == "model_checking":
         assert cov["states"] >= 1 and cov["transitions"] >= 1, "model_checking needs states/transitions"
-    path = os.path.join(VERIF, "evidence", f"{cid}.json")
+    path = os.path.join(evdir, f"{cid}.json")
     tmp = path + ".tmp"
     with open(tmp, "w") as f:
         json.dump(ev, f, indent=1, sort_keys=True)
@@ -252,10 +253,11 @@ def write_evidence(cid: str, level: str, tier: str, seed: int, merged: Acc, mod,
 
 
 def write_replay(cid: str, tier: str, seed: int, entry: dict) -> str:
-    os.makedirs(os.path.join(VERIF, "replays"), exist_ok=True)
+    rdir = os.path.join(os.environ["VERIF_EVIDENCE_DIR"], "replays") if os.environ.get("VERIF_EVIDENCE_DIR") else os.path.join(VERIF, "replays")
+    os.makedirs(rdir, exist_ok=True)
     body = {"property": cid, "tier": tier, "seed": seed, **entry}
     dg = hashlib.sha256(json.dumps(jsonable(body), sort_keys=True).encode()).hexdigest()[:12]
-    path = os.path.join(VERIF, "replays", f"{cid}-{dg}.json")
+    path = os.path.join(rdir, f"{cid}-{dg}.json")
     with open(path, "w") as f:
         json.dump(body, f, indent=1, default=jsonable)
         f.write("\n")
